@@ -211,9 +211,18 @@ func TestVerifC19Gen(t *testing.T) {
 		for k := 1 + r.Intn(20); k > 0; k-- {
 			s.MatchTypes = append(s.MatchTypes, c19Ident(r, false, true, used))
 		}
-		used = map[string]bool{}
-		for k := 1 + r.Intn(4); k > 0; k-- {
-			s.L4Proto = append(s.L4Proto, namedValue{c19Ident(r, true, false, used), uint32(r.Intn(256))})
+		// l4_proto: "X" must exist (the generator always emits the alias L4ProtoType_TCP_UDP = L4ProtoType_X)
+		used = map[string]bool{"X": true}
+		l4names := []string{"X"}
+		for k := r.Intn(4); k > 0; k-- {
+			l4names = append(l4names, c19Ident(r, true, false, used))
+		}
+		for a := len(l4names) - 1; a > 0; a-- {
+			b := r.Intn(a + 1)
+			l4names[a], l4names[b] = l4names[b], l4names[a]
+		}
+		for _, nme := range l4names {
+			s.L4Proto = append(s.L4Proto, namedValue{nme, uint32(r.Intn(256))})
 		}
 		used = map[string]bool{}
 		for k := 1 + r.Intn(4); k > 0; k-- {
